@@ -105,11 +105,14 @@ class Ctx:
         self.notes = []
         self.steps = 0
         self.max_steps = 400000
+        self.ghost = {}
 
     # ---- symbols
     def fresh(self, base, sort=None):
         self.n_fresh += 1
         name = "%s!%d" % (base, self.n_fresh)
+        if not isinstance(sort, (str, type(None))):
+            return z3.Const(name, sort)
         if sort is None or sort == 'int':
             return z3.Int(name)
         if sort == 'bool':
